@@ -6,6 +6,9 @@ import FinamModel.Translated.Output__pack
 import FinamModel.Translated.Output__unpack
 import FinamModel.Translated.Output__clear_data_files
 import FinamModel.Translated.Output_finalize
+import FinamModel.Translated.TimeCachingAdapter__clear_cached_data_files
+import FinamModel.Translated.TimeCachingAdapter__unpack
+import FinamModel.Translated.TimeCachingAdapter__finalize
 /-!
   C10 — the spill mechanism of an output on the *translated* `Output._pack`, `_unpack`, `_clear_data` (with its
   `os.remove` branch) and `finalize` (`sdk/output.py`, regenerated from the source on every run) against the hand-written
@@ -198,6 +201,101 @@ theorem tr_Output_finalize (d : List (Int × Stored)) (fs : FSt) :
   rw [finalize_loop]
   cases finalizeFs (toE d) fs <;> simp [bind, Except.bind, pure, Except.pure]
 
+/-! ### the time-caching and time-integration adapters (`adapters/time.py`; `_pack` is the output's) -/
+
+theorem evictS_while_adapter (tmin : Int) : ∀ (fuel : Nat) (d : List (Int × Stored)) (total : Int) (fs : FSt),
+    d.length < fuel →
+    Tr.TimeCachingAdapter__clear_cached_data_files.while1 d total fs tmin isFileS nbytesS fsRemoveS fuel =
+      (match evictS (toE d) total fs tmin with
+       | .error e => .error e
+       | .ok (d', total', fs') => .ok (ofE d', total', fs')) := by
+  intro fuel
+  induction fuel with
+  | zero => intro d _ _ h; omega
+  | succ fuel ih =>
+    intro d total fs h
+    unfold Tr.TimeCachingAdapter__clear_cached_data_files.while1
+    match d with
+    | [] => simp [evictS, ofE, pure, Except.pure]
+    | [p] => simp [evictS, ofE, pure, Except.pure]
+    | p :: q :: r =>
+      have hl : Py.len r + 1 + 1 > 1 := by have := len_nonneg r; omega
+      have hi : idx (p :: q :: r) 1 = .ok q := by simpa using idx_nat (p :: q :: r) 1 q (by simp)
+      have h0 : idx (p :: q :: r) 0 = .ok p := by simpa using idx_nat (p :: q :: r) 0 p (by simp)
+      simp only [len_cons, hl, if_true, hi, h0, ok_bind, toE_cons, evictS]
+      by_cases hc : q.1 ≤ tmin
+      · simp only [hc, if_true, Py.pop0, ok_bind]
+        obtain ⟨pt, pv⟩ := p
+        cases pv with
+        | inRam v size =>
+          have := ih (q :: r) (total - size) fs (by simp at h ⊢; omega)
+          simp only [toE_cons] at this
+          simp [isFileS, nbytesS, dropEntry, this]
+        | onDisk f g =>
+          simp only [isFileS, if_true, fsRemoveS, dropEntry]
+          cases hlk : (lookupF fs f).isSome with
+          | false => simp [bind, Except.bind]
+          | true =>
+            have := ih (q :: r) total (removeF fs f) (by simp at h ⊢; omega)
+            simp only [toE_cons] at this
+            simp [this]
+      · simp [hc, ofE, pure, Except.pure]
+        exact (ofE_toE r).symm
+
+/-- **`TimeCachingAdapter._clear_cached_data`** (files variant) = `evictS` up to the request time: the eviction step of
+    the model's `stepS` for the interpolation adapters (and, with the previous request time, the integration adapters) -/
+theorem tr_TimeCachingAdapter__clear_cached_data_files (d : List (Int × Stored)) (total : Int) (fs : FSt) (t : Int) :
+    Tr.TimeCachingAdapter__clear_cached_data_files d total fs t isFileS nbytesS fsRemoveS =
+      (match evictS (toE d) total fs t with
+       | .error e => .error e
+       | .ok (d', total', fs') => .ok (total', ofE d', fs')) := by
+  unfold Tr.TimeCachingAdapter__clear_cached_data_files
+  rw [evictS_while_adapter t (Int.toNat (Py.len d) + 1) d total fs (by simp [Py.len])]
+  cases evictS (toE d) total fs t with
+  | error e => simp [bind, Except.bind]
+  | ok r => obtain ⟨d', total', fs'⟩ := r; simp [bind, Except.bind, pure, Except.pure]
+
+/-- **`TimeCachingAdapter._unpack`** = the model's `unpack` -/
+theorem tr_TimeCachingAdapter__unpack (c : Cfg) (hu : c.unpackUnits = c.inUnits) (fs : FSt) (w : Stored) :
+    (match Tr.TimeCachingAdapter__unpack fs w isFileS fsLoadS with
+     | .error e => .error e
+     | .ok x => .ok (val x)) = unpack c fs w := by
+  unfold Tr.TimeCachingAdapter__unpack unpack
+  cases w with
+  | inRam v size => simp [isFileS, val, pure, Except.pure]
+  | onDisk f g =>
+    simp only [isFileS, if_true, fsLoadS]
+    cases lookupF fs f with
+    | none => simp [bind, Except.bind]
+    | some v => simp [hu, val, bind, Except.bind, pure, Except.pure]
+
+theorem finalize_loop_adapter (full : List (Int × Stored)) : ∀ (d : List (Int × Stored)) (fs : FSt),
+    Tr.TimeCachingAdapter__finalize.loop1 full fs isFileS fsRemoveS d = finalizeFs (toE d) fs := by
+  intro d
+  induction d with
+  | nil => intro fs; rfl
+  | cons p d ih =>
+    intro fs
+    obtain ⟨pt, pv⟩ := p
+    unfold Tr.TimeCachingAdapter__finalize.loop1
+    cases pv with
+    | inRam v size => simp [isFileS, finalizeFs, ih]
+    | onDisk f g =>
+      simp only [isFileS, if_true, fsRemoveS, toE_cons, finalizeFs]
+      cases (lookupF fs f).isSome with
+      | false => simp [bind, Except.bind]
+      | true => simp [ih]
+
+/-- **`TimeCachingAdapter._finalize`** = the model's finalize step -/
+theorem tr_TimeCachingAdapter__finalize (d : List (Int × Stored)) (fs : FSt) :
+    Tr.TimeCachingAdapter__finalize d fs isFileS fsRemoveS =
+      (match finalizeFs (toE d) fs with
+       | .error e => .error e
+       | .ok fs' => .ok ([], fs')) := by
+  unfold Tr.TimeCachingAdapter__finalize
+  rw [finalize_loop_adapter]
+  cases finalizeFs (toE d) fs <;> simp [bind, Except.bind, pure, Except.pure]
+
 /-! ### the property on the regenerated code -/
 
 theorem ofE_toE' (l : List (Entry Stored)) : toE (ofE l) = l := toE_ofE l
@@ -212,6 +310,15 @@ theorem code_finalize_leaves_no_files (kind : SlotKind) (limit : Option Int) (lo
   intro s
   have h := (sim_reach (mkCfg kind limit loc slotId units) rfl nEnds evs).finv
   rw [tr_Output_finalize, toE_ofE, finalizeFs_spec _ _ _ _ h]
+
+/-- the same for the buffering adapters: the translated `TimeCachingAdapter._finalize` after any history -/
+theorem code_adapter_finalize_leaves_no_files (kind : SlotKind) (limit : Option Int) (loc : Option String)
+    (slotId units nEnds : Nat) (evs : List SP.Ev) :
+    let s := finalS (mkCfg kind limit loc slotId units) (initS nEnds) evs
+    Tr.TimeCachingAdapter__finalize (ofE s.data) s.fs isFileS fsRemoveS = .ok ([], []) := by
+  intro s
+  have h := (sim_reach (mkCfg kind limit loc slotId units) rfl nEnds evs).finv
+  rw [tr_TimeCachingAdapter__finalize, toE_ofE, finalizeFs_spec _ _ _ _ h]
 
 /-- **C10, files are written exactly when the limit says so, on the code**: the translated `_pack` writes a file iff
     `memory_limit` is set, non-negative and smaller than the memory account plus the new payload; the file is the next
